@@ -212,7 +212,12 @@ def suggest_pattern(description):
     """Generate a suggested regex pattern from a raw description."""
     import re
 
-    desc = description.upper()
+    # Upper-case for readability - but only characters whose upper-case form still matches
+    # them case-insensitively ('ß'.upper() is 'SS', which regex() does not match against 'ß')
+    desc = ''.join(
+        c.upper() if re.fullmatch(re.escape(c.upper()), c, re.IGNORECASE) else c
+        for c in description
+    )
 
     # Remove common suffixes that vary
     desc = re.sub(r'\s+\d{4,}.*$', '', desc)  # Remove trailing numbers (store IDs)
